@@ -25,7 +25,7 @@ Definition straight (ss : list stmt) : bool := forallb simple_s ss.
 Fixpoint slines (s : stmt) : list N :=
   match s with
   | SIf l _ a b => l :: flat_map slines a ++ flat_map slines b
-  | SWhile l _ b | SFor l _ _ b => l :: flat_map slines b
+  | SWhile l _ b e | SFor l _ _ b e => l :: flat_map slines b ++ flat_map slines e
   | s => [line_of s]
   end.
 Definition blines (ss : list stmt) : list N := flat_map slines ss.
@@ -37,15 +37,15 @@ Fixpoint reads_s (s : stmt) : list var :=
   | SAug _ x _ e => x :: vars_e e
   | SPrint _ e => name_print :: vars_e e
   | SIf _ c a b => vars_e c ++ flat_map reads_s a ++ flat_map reads_s b
-  | SWhile _ c b => vars_e c ++ flat_map reads_s b
-  | SFor _ _ e b => name_range :: vars_e e ++ flat_map reads_s b
+  | SWhile _ c b els => vars_e c ++ flat_map reads_s b ++ flat_map reads_s els
+  | SFor _ _ e b els => name_range :: vars_e e ++ flat_map reads_s b ++ flat_map reads_s els
   | SCall _ _ args _ _ _ => args
   | _ => []
   end.
 Definition reads (ss : list stmt) : list var := flat_map reads_s ss.
 
 Definition compound (s : stmt) : bool :=
-  match s with SIf _ _ _ _ | SWhile _ _ _ | SFor _ _ _ _ => true | _ => false end.
+  match s with SIf _ _ _ _ | SWhile _ _ _ _ | SFor _ _ _ _ _ => true | _ => false end.
 
 Definition side_C03 (params : list var) (pre R post : list stmt) : bool :=
   straight R && accepted R && nocall pre && nocall post
